@@ -1003,7 +1003,7 @@ CLEAN = [
 ]
 # mutators of classes without a read-only flag, and the unguarded one: no read-only variant of the clean case
 NO_RO = {90, 91, 92, 93, 7, 8}
-PINNED_ALT = {1: 501, 3: 503, 10: 510, 15: 515, 43: 543, 50: 550, 70: 570, 71: 571, 90: 590, 93: 593, 110: 610, 122: 622}
+PINNED_ALT = {1: 501, 3: 503, 4: 504, 5: 505, 12: 512, 34: 534, 41: 541, 45: 545, 10: 510, 15: 515, 43: 543, 50: 550, 70: 570, 71: 571, 90: 590, 93: 593, 110: 610, 122: 622}
 
 
 def clean_cases(rng, worlds_full, fetch_worlds, reps):
